@@ -42,6 +42,9 @@ type DialScenario struct {
 	sasl      *saslServer
 	Timeout   time.Duration     `json:"-"`
 	dynamic   func(pos int, verb, line string) (SrvAction, bool)
+	// Redial: a second DialWithContext on the SAME Client (after Close) against this server; only Caps,
+	// Script and dynamic of it are used, the client configuration stays
+	Redial *DialScenario `json:"redial,omitempty"`
 }
 
 type DialRun struct {
@@ -59,6 +62,7 @@ type DialRun struct {
 	ResetErr error
 	StockText, StockJSON string
 	TLSState *tls.ConnectionState
+	Second   *DialRun // outcome of the Redial
 }
 
 // certificates for the scripted server
@@ -106,17 +110,16 @@ func (l *capLogger) Infof(lg maillog.Log)  { l.rec(lg) }
 func (l *capLogger) Warnf(lg maillog.Log)  { l.rec(lg) }
 func (l *capLogger) Errorf(lg maillog.Log) { l.rec(lg) }
 
-func RunDial(sc *DialScenario) *DialRun {
-	tlsMaterial()
-	run := &DialRun{}
+// newDialServer builds the scripted server of a dial scenario
+func newDialServer(sc *DialScenario, host string) *RefServer {
 	srv := NewRefServer(sc.Caps, sc.Script)
 	srv.Dynamic = sc.dynamic
-	srv.TLSGood = tlsGoodCfg[sc.Host]
+	srv.TLSGood = tlsGoodCfg[host]
 	switch sc.BadCert {
 	case "untrusted":
-		srv.TLSBad = tlsUntrusted[sc.Host]
+		srv.TLSBad = tlsUntrusted[host]
 	default:
-		srv.TLSBad = tlsWrongName[sc.Host]
+		srv.TLSBad = tlsWrongName[host]
 	}
 	if sc.TLS12 && srv.TLSGood != nil {
 		cfg := srv.TLSGood.Clone()
@@ -130,6 +133,37 @@ func RunDial(sc *DialScenario) *DialRun {
 		}
 	}
 	srv.tlsDone = make(chan struct{})
+	return srv
+}
+
+// collectDial gathers what the server and the connection saw
+func collectDial(run *DialRun, srv *RefServer, conn *ScriptConn, logger *capLogger, from int) {
+	// let the TLS goroutine finish recording when the client closed the connection
+	if conn != nil && conn.IsClosed() && srv.tlsStarted {
+		select {
+		case <-srv.tlsDone:
+		case <-time.After(500 * time.Millisecond):
+		}
+	}
+	srv.mu.Lock()
+	run.Events = append([]Event(nil), srv.Events...)
+	run.Applied = append([]SrvAction(nil), srv.Applied...)
+	run.Verbs = append([]string(nil), srv.Verbs...)
+	run.TLSState = srv.TLSState
+	srv.mu.Unlock()
+	if conn != nil {
+		run.Open = !conn.IsClosed()
+		run.Clear = append([]byte(nil), conn.Clear.Bytes()...)
+	}
+	logger.mu.Lock()
+	run.Logs = append([]string(nil), logger.recs[from:]...)
+	logger.mu.Unlock()
+}
+
+func RunDial(sc *DialScenario) *DialRun {
+	tlsMaterial()
+	run := &DialRun{}
+	srv := newDialServer(sc, sc.Host)
 	var conn *ScriptConn
 	dial := func(ctx context.Context, network, address string) (net.Conn, error) {
 		conn = NewScriptConn(srv)
@@ -158,7 +192,7 @@ func RunDial(sc *DialScenario) *DialRun {
 		return run
 	}
 	run.Client = client
-	func() {
+	if !watchdog(60*time.Second, func() {
 		defer func() {
 			if r := recover(); r != nil {
 				run.Panic = r
@@ -168,27 +202,35 @@ func RunDial(sc *DialScenario) *DialRun {
 		if run.Err == nil && sc.ThenReset {
 			run.ResetErr = client.Reset()
 		}
-	}()
-	// let the TLS goroutine finish recording when the client closed the connection
-	if conn != nil && conn.IsClosed() && srv.tlsStarted {
-		select {
-		case <-srv.tlsDone:
-		case <-time.After(500 * time.Millisecond):
+	}) {
+		run.Panic = "the call did not return within 60 s of real time (all waits of the scripted peer are virtual or bounded by the configured timeout)"
+		if conn != nil {
+			_ = conn.Close()
 		}
 	}
-	srv.mu.Lock()
-	run.Events = append([]Event(nil), srv.Events...)
-	run.Applied = append([]SrvAction(nil), srv.Applied...)
-	run.Verbs = append([]string(nil), srv.Verbs...)
-	run.TLSState = srv.TLSState
-	srv.mu.Unlock()
-	if conn != nil {
-		run.Open = !conn.IsClosed()
-		run.Clear = append([]byte(nil), conn.Clear.Bytes()...)
+	collectDial(run, srv, conn, logger, 0)
+	if sc.Redial != nil && run.Panic == nil {
+		// same Client, new connection to another server incarnation
+		if run.Err == nil {
+			_ = client.Close()
+		}
+		logger.mu.Lock()
+		from := len(logger.recs)
+		logger.mu.Unlock()
+		second := &DialRun{Client: client}
+		srv = newDialServer(sc.Redial, sc.Host)
+		conn = nil
+		func() {
+			defer func() {
+				if r := recover(); r != nil {
+					second.Panic = r
+				}
+			}()
+			second.Err = client.DialWithContext(context.Background())
+		}()
+		collectDial(second, srv, conn, logger, from)
+		run.Second = second
 	}
-	logger.mu.Lock()
-	run.Logs = append([]string(nil), logger.recs...)
-	logger.mu.Unlock()
 	return run
 }
 
